@@ -626,7 +626,7 @@ def main(argv):
     try:
         unit = Unit(prop)
         if os.path.isdir(unit.work) and not args.only:
-            shutil.rmtree(unit.work); os.makedirs(unit.work)
+            shutil.rmtree(unit.work, ignore_errors=True); os.makedirs(unit.work, exist_ok=True)
         unit.extract()
         jobs = []
         for fs in unit.m.FUNCS:
@@ -791,4 +791,16 @@ def scan_assumptions(unit):
     return hits[:60]
 
 if __name__ == '__main__':
-    sys.exit(main(sys.argv[1:]))
+    # exit 1 means "violation" and is only ever returned by main() together with a VIOLATION line: a crash of the runner itself
+    # (an uncaught exception would exit 1 too) is a tool failure, reported as undecided
+    try:
+        rc = main(sys.argv[1:])
+    except SystemExit:
+        raise
+    except BaseException:
+        import traceback
+        prop = next((a for a in sys.argv[1:] if re.match(r'^C\d\d$', a)), '?')
+        print('UNDECIDED property=%s runner failure: %s' % (prop, traceback.format_exc().strip().splitlines()[-1]))
+        traceback.print_exc()
+        rc = 2
+    sys.exit(rc)
